@@ -224,11 +224,19 @@ func (s IndexStep) Apply(val Value) (Value, error) {
 	default:
 		return NilVal, errors.New("key value not number or string")
 	}
+	if s.Key.IsNull() {
+		return NilVal, errors.New("key value is null")
+	}
 
 	// This value needs to be stripped of marks to check True(), but Index will
 	// apply the correct marks for the result.
 	has, _ := val.HasIndex(s.Key).Unmark()
 	if !has.IsKnown() {
+		if val.Type().IsTupleType() {
+			// The elements of a tuple each have their own type, so with an
+			// unknown index we cannot say which one the result would have.
+			return DynamicVal, nil
+		}
 		return UnknownVal(val.Type().ElementType()), nil
 	}
 	if !has.True() {
